@@ -218,7 +218,7 @@ def copies_and_pickles_native(B):
             c = s.copy() if how == "copy" else pickle.loads(pickle.dumps(s))
         except Exception as ex:
             if how == "pickle":
-                continue         # generated evaluators may not be picklable with the standard pickle: outside the claim
+                continue         # reported by sequential_pickle_round_trip_native (known finding C20-sequential-pickle)
             raise
         if set(native_footprint(s)) & set(native_footprint(c)):
             B.fail(f"Sequential {how} shares mutable state with the original", {})
@@ -321,3 +321,100 @@ def redvar_copy_carries_the_estimates_in_its_own_memory(K, intercept):
     if not intercept:
         K.ensure("no intercept in the copy either", K.is_none(K.attr(s1, "c")))
     K.ensure("fitted periods carried", len(tuple(K.items(K.attr(v1, "fitted_periods")))) == len(m._variants[0].fitted_periods))
+
+
+# ------------------------------------------------------------------------------ portable representation of whole models
+PORT_DET = "!transition-variables\n \"Output\" x, z\n!parameters\n rho\n!log-variables\n z\n!transition-equations\n x = rho*x[-1] + 1;\n z = z[-1]^0.5*exp(x) !! z = 1;\n"
+PORT_STO = PORT_DET.replace("!parameters", "!transition-shocks\n ex\n!parameters").replace("x[-1] + 1;", "x[-1] + ex;")
+
+
+def _model_facts(m):
+    inv = m._invariant
+    return {"flags": (m.is_linear, m.is_flat, m.is_deterministic),
+            "quantities": sorted((q.human, q.kind.name, bool(q.logly), q.description or "") for q in inv.quantities),
+            "dynamic": [e.human for e in inv.dynamic_equations], "steady": [e.human for e in inv.steady_equations]}
+
+
+@contract("C20", targets=["irispie.simultaneous._invariants:Invariant.from_portable", "irispie.simultaneous._invariants:Invariant.to_portable", "irispie.simultaneous._flags:Flags.from_kwargs"],
+          instances=[(l, f) for l in (False, True) for f in (False, True)], cross=0, opts={"max_paths": 50})
+def portable_round_trip_keeps_the_model_flags(K, linear, flat):
+    """The flags stored in the portable representation are the flags of the model rebuilt from it."""
+    m = ir.Simultaneous.from_string(PORT_DET, linear=linear, flat=flat, deterministic=True)
+    portable = m._invariant.to_portable()
+    K.ensure("flags are part of the portable representation", portable["flags"] == {"is_linear": linear, "is_flat": flat, "is_deterministic": True})
+    Inv = type(m._invariant)
+    calls = K.capture(Inv, "from_source", lambda: K.call(Inv.from_portable, portable))
+    K.ensure("the model is rebuilt from a source object once", len(calls) == 1)
+    args, kwargs = calls[0]
+    # from_source derives the flags from its keyword arguments with Flags.from_kwargs (proved inverse of to_portable by
+    # flags_portable_roundtrip): what matters here is that the stored flags REACH it
+    fl = FL.Flags.from_kwargs(**{k: v for k, v in kwargs.items() if isinstance(v, bool)})
+    K.ensure("linear flag reaches the rebuilt model", bool(fl.is_linear) == linear)
+    K.ensure("flat flag reaches the rebuilt model", bool(fl.is_flat) == flat)
+    K.ensure("deterministic flag reaches the rebuilt model", bool(fl.is_deterministic) is True)
+
+
+@bounded("C20", bound="one deterministic model without shocks (a log-variable, a description, a steady-state version of an equation) under the four linear/flat flag combinations")
+def portable_round_trip_of_models_without_shocks_native(B):
+    """to_portable -> from_portable returns a model with the same names, kinds, log status, descriptions, equations and flags."""
+    for linear in (False, True):
+        for flat in (False, True):
+            B.case()
+            m = ir.Simultaneous.from_string(PORT_DET, linear=linear, flat=flat, deterministic=True)
+            try:
+                m2 = ir.Simultaneous.from_portable(m.to_portable())
+            except Exception as ex:
+                B.fail(f"portable round trip raises {type(ex).__name__}: {ex}", {"linear": linear, "flat": flat})
+                return
+            a, b = _model_facts(m), _model_facts(m2)
+            for key in a:
+                if a[key] != b[key]:
+                    B.fail(f"portable round trip changes {key}", {"linear": linear, "flat": flat, "before": a[key], "after": b[key]})
+                    return
+
+
+@bounded("C20", bound="the same model with one transition shock (stochastic)")
+def portable_round_trip_of_stochastic_models_native(B):
+    """Known finding C20-portable-stochastic."""
+    B.case()
+    m = ir.Simultaneous.from_string(PORT_STO, linear=True)
+    try:
+        m2 = ir.Simultaneous.from_portable(m.to_portable())
+    except Exception as ex:
+        B.fail("portable round trip of a model with shocks raises", {"exception": f"{type(ex).__name__}: {str(ex)[:200]}"})
+        return
+    a, b = _model_facts(m), _model_facts(m2)
+    for key in a:
+        if a[key] != b[key]:
+            B.fail(f"portable round trip of a model with shocks changes {key}", {"before": a[key], "after": b[key]})
+            return
+
+
+@bounded("C20", bound="one Sequential model (a transform and an identity), standard pickle and dill")
+def sequential_pickle_round_trip_native(B):
+    """Known finding C20-sequential-pickle (standard pickle); dill must round-trip and simulate identically."""
+    import pickle
+    s = ir.Sequential.from_string("!equations\n diff_log(x) = 0.5*y;\n z === x + 1;\n")
+    span = ir.qq(2020, 1) >> ir.qq(2020, 4)
+    db = ir.Databox()
+    for n in ("x", "y", "z", "res_x"):
+        db[n] = ir.Series(start=ir.qq(2019, 1), values=np.linspace(1.0, 2.0, 8))
+    ref = s.simulate(db, span)
+    ref = ref[0] if isinstance(ref, tuple) else ref
+    try:
+        import dill
+        packers = (("dill", dill), ("pickle", pickle))
+    except ImportError:
+        packers = (("pickle", pickle),)
+    for label, mod in packers:
+        B.case()
+        try:
+            c = mod.loads(mod.dumps(s))
+        except Exception as ex:
+            B.fail(f"{label} round trip of a Sequential model raises", {"packer": label, "exception": f"{type(ex).__name__}: {str(ex)[:160]}"})
+            return
+        out = c.simulate(db, span)
+        out = out[0] if isinstance(out, tuple) else out
+        if not all(np.allclose(out[n].get_data(span), ref[n].get_data(span), equal_nan=True) for n in ("x", "z")):
+            B.fail(f"{label} round trip of a Sequential model simulates differently", {"packer": label})
+            return
